@@ -400,5 +400,44 @@ def rule_x9(repo):
     return res
 
 
+def rule_x10(repo):
+    """The Tseitin encoding introduces one auxiliary variable per subformula.  Equisatisfiability needs them
+    to be *new*: a name made up by the encoder (a prefix and a counter) must go through the fresh-name generator
+    with the names of the formula's own variables - an atom that happens to be called x1 is otherwise identified with
+    the auxiliary variable x1, and a satisfiable formula gets an unsatisfiable CNF."""
+    res = RuleResult('C15.X10', 'the auxiliary variables of the Tseitin encoding are named apart from the variables of the formula', floor=1)
+    f = repo.func(TSEITIN, 'encode')
+    from ..flow import flow_of
+    flow = flow_of(f.node)
+    p = f.params()[0]
+    made = [c for c in ast.walk(f.node) if isinstance(c, ast.Call) and call_name(c) == 'Var' and c.args]
+    need(made, 'tseitin.encode: creation of the auxiliary variables not found')
+    for c in made:
+        nm = c.args[0]
+        closure_exprs = [nm]
+        if isinstance(nm, ast.Name):
+            closure_exprs += [v for _k, v in flow.defs.get(nm.id, [])]
+        fresh = [x for e in closure_exprs for x in ast.walk(e) if isinstance(x, ast.Call) and (call_name(x) or '').split('.')[-1] in ('get_variant_name', 'get_variant_names')]
+        ok = False
+        why = 'the name `%s` is made up without the fresh-name generator' % src(nm, 30)
+        if fresh:
+            avoid = fresh[0].args[1] if len(fresh[0].args) > 1 else None
+            names = flow.names_closure(avoid) if avoid is not None else set()
+            # the avoid list comes from the variables of the formula
+            from_formula = False
+            for nm2 in names | ({avoid.id} if isinstance(avoid, ast.Name) else set()):
+                for _k, v in flow.defs.get(nm2, []):
+                    if any(isinstance(x, ast.Call) and call_attr(x) == 'get_vars' and p in src(x, 80) for x in ast.walk(v)) or \
+                            any(isinstance(x, ast.Call) and (call_name(x) or '').endswith('get_vars') and p in src(x, 80) for x in ast.walk(v)):
+                        from_formula = True
+            ok = from_formula
+            why = 'the fresh-name generator is not given the names of the variables of `%s`' % p
+        res.add('%s :: encode :: auxiliary-variable(%s)' % (TSEITIN, src(nm, 25)), ok,
+                'chosen by the fresh-name generator against the variables of the formula' if ok else
+                why + ': for a & ~x1 the atom x1 and the auxiliary x1 are one variable, and the CNF is unsatisfiable although the formula is not',
+                '%s:%d' % (TSEITIN, c.lineno))
+    return res
+
+
 def rules(repo):
-    return [rule_x1(repo), rule_x2(repo), rule_x3(repo), rule_x4(repo), rule_x5(repo), rule_x6(repo), rule_x7(repo), rule_x8(repo), rule_x9(repo)]
+    return [rule_x1(repo), rule_x2(repo), rule_x3(repo), rule_x4(repo), rule_x5(repo), rule_x6(repo), rule_x7(repo), rule_x8(repo), rule_x9(repo), rule_x10(repo)]
